@@ -175,7 +175,8 @@ def analog_tjm_2(args: tuple[int, MPS, NoiseModel | None, AnalogSimParams, MPO])
         state.evaluate_observables(sim_params, results, 0)
 
     phi = initialize(state, noise_model, sim_params, rng=rng)
-    if sim_params.sample_timesteps:
+    if sim_params.sample_timesteps or len(sim_params.times) == 2:
+        # with a single step, column 1 is also the final (and only reported) time
         sample(phi, hamiltonian, noise_model, sim_params, results, j=1, rng=rng)
 
     for j, _ in enumerate(sim_params.times[2:], start=2):
